@@ -32,6 +32,7 @@ type Partition struct {
 	FetchPlan   []FetchFault
 	ProducePlan []ProduceFault
 	ListErr     int16 // error code for ListOffsets on this partition
+	ListErrTime int16 // error code for ListOffsets lookups by timestamp (ts >= 0) only, e.g. UnsupportedForMessageFormat
 	Timestamps  map[int64]int64
 	Applied     [][]krec.Batch // produce requests applied, decoded by krec
 }
@@ -315,6 +316,8 @@ func (b *Broker) listOffsets(req *Request) Reply {
 				code = p.ListErr
 			case p.Leader != b.ID:
 				code = 6
+			case p.ListErrTime != 0 && q.ts >= 0:
+				code = p.ListErrTime
 			default:
 				off, ts = p.OffsetForTime(q.ts)
 			}
